@@ -617,7 +617,14 @@ func (fc *FnCtx) runLoop(st *State, lp loopParts) []Outcome {
 		sc := fc.fnScope(s, lp.bodyPos)
 		return sc
 	}
+	if fc.loopEntry == nil {
+		fc.loopEntry = map[int]*State{}
+	}
+	fc.loopEntry[lp.ord] = st.clone()
 	trClause := func(s *State, cl *Clause) string {
+		savedLoop := fc.curLoop
+		fc.curLoop = lp.ord
+		defer func() { fc.curLoop = savedLoop }()
 		saved, so, sf := fc.scope, fc.oldEnv, fc.oldFresh
 		fc.scope = scopeAt(s)
 		fc.oldEnv, fc.oldFresh = map[string]Val{}, map[string]bool{}
@@ -661,6 +668,8 @@ func (fc *FnCtx) runLoop(st *State, lp loopParts) []Outcome {
 		if lp.pre != nil {
 			lp.pre(b)
 		}
+		// snapshot at the start of the body, for `loop N body` clauses (atHead(e))
+		headSnap := b.clone()
 		for _, o := range fc.execBlock(b, lp.body.List) {
 			switch o.Kind {
 			case ONormal, OContinue:
@@ -683,6 +692,12 @@ func (fc *FnCtx) runLoop(st *State, lp loopParts) []Outcome {
 							}
 						}
 						fc.applyUses(e.St, "use-loop", lp.ord, lp.bodyPos, lp.stmt)
+						for i, cl := range c.loopClauses("body", lp.ord) {
+							fc.headEnv, fc.headFresh = headSnap.env, headSnap.fresh
+							t := trClause(e.St, cl)
+							fc.headEnv, fc.headFresh = nil, nil
+							fc.oblige(e.St, fmt.Sprintf("body#%d/%s", lp.ord, label(i, cl)), "loop-body", c.tagsFor(cl), t, "effect of one iteration: "+cl.Text, lp.stmt)
+						}
 						for i, cl := range invs {
 							fc.oblige(e.St, fmt.Sprintf("inv-keep#%d/%s", lp.ord, label(i, cl)), "inv-keep", c.tagsFor(cl), trClause(e.St, cl), "loop invariant preserved: "+cl.Text, lp.stmt)
 						}
@@ -853,6 +868,25 @@ func (fc *FnCtx) execRange(st *State, x *ast.RangeStmt) []Outcome {
 			i := s.env[idxKey]
 			w := s.env[wKey]
 			s.env[idxKey] = intVal("(+ " + i.T + " " + w.T + ")")
+			return one(ONormal, s)
+		}
+	case xs.S == SOL:
+		lenT := xs.T
+		lp.cond = func(s *State) (string, []Outcome) {
+			i := s.env[idxKey]
+			return "(< " + i.T + " " + lenT + ")", nil
+		}
+		lp.pre = func(s *State) {
+			i := s.env[idxKey]
+			bind(s, x.Key, i)
+			if x.Value != nil {
+				et := fc.typeOf(x.Value)
+				bind(s, x.Value, fc.freshVal(s, "elem", sortOf(et), et))
+			}
+		}
+		lp.post = func(s *State) []Outcome {
+			i := s.env[idxKey]
+			s.env[idxKey] = intVal("(+ " + i.T + " 1)")
 			return one(ONormal, s)
 		}
 	case xs.S == SStr || xs.S == SSL || xs.S == SIL:
